@@ -28,11 +28,36 @@ VestAccts == {VestName(i) : i \in 1..nv}
 AnyAcct(h) == IF nv > 0 /\ Pick(1..4, h) = 1 THEN Pick(VestAccts, h)
               ELSE IF Pick(1..8, h) = 1 THEN "fresh" \o ToString(Pick(1..3, h)) ELSE Pick(Accts, h)
 
-Init == /\ hist = <<>> /\ nv = 0 /\ nc = 0 /\ nl = 0 /\ np = 0 /\ blocks = 0
-        /\ dels = {<<"v1", 0>>, <<"v2", 1>>, <<"v3", 2>>}     \* (delegator, validator index) pairs believed to exist
-        /\ vfund = {}                                          \* (vesting account, funder) pairs
-        /\ daoh = {}                                           \* accounts believed to hold DAO shares
-        /\ liq = {}                                            \* (liquid denom id, holder) pairs believed to exist
+\* C19: a fixed prologue builds the rich state the property talks about before the random part:
+\* two vesting accounts past their vesting but inside their lockup, three liquid denoms (with their
+\* token pairs) of which one is fully redeemed again (its denom is deleted, the counter stays), a
+\* governance proposal that disables conversion of one pair, a contract with storage, an account with
+\* storage but empty code, DAO shares and a fresh delegation.
+Blk(dt, txs) == [ev |-> "block", dt |-> dt, proposer |-> 0, absent |-> <<>>, evidence |-> <<>>, txs |-> txs]
+VC(f, to) == <<[k |-> "vest_create", from |-> f, to |-> to, amt |-> "3000000000000000000000", lock |-> 3000, vest |-> 1, startOff |-> -20, merge |-> FALSE],
+               [k |-> "send", from |-> f, to |-> to, amt |-> "1000000000000000000"]>>
+Prologue == <<
+    Blk(5000, VC("a1", "vx1") \o VC("a2", "vx2") \o
+              <<[k |-> "deploy", from |-> "a3", slots |-> 3], [k |-> "deploy_empty", from |-> "a4"],
+                [k |-> "dao_fund", from |-> "a5", amt |-> "250000000000000000000"],
+                [k |-> "delegate", from |-> "a6", val |-> 0, amt |-> "250000000000000000000"]>>),
+    Blk(5000, <<[k |-> "liquidate", from |-> "vx1", to |-> "a1", amt |-> "1000000000000000000000"],
+                [k |-> "liquidate", from |-> "vx2", to |-> "a2", amt |-> "1000000000000000000000"],
+                [k |-> "liquidate", from |-> "vx1", to |-> "a3", amt |-> "1500000000000000000000"]>>),
+    Blk(5000, <<[k |-> "redeem", from |-> "a2", to |-> "a6", amt |-> "1000000000000000000000", id |-> 1],
+                [k |-> "gov_toggle", from |-> "a1", id |-> 0],
+                [k |-> "gov_vote", from |-> "v1", id |-> 1, opt |-> "yes"], [k |-> "gov_vote", from |-> "v2", id |-> 1, opt |-> "yes"],
+                [k |-> "gov_vote", from |-> "v3", id |-> 1, opt |-> "yes"]>>),
+    Blk(61000, <<[k |-> "send", from |-> "a5", to |-> "a4", amt |-> "1000"]>>),
+    [ev |-> "export_import"] >>
+
+Init == /\ hist = (IF Exports THEN Prologue ELSE <<>>)
+        /\ nv = (IF Exports THEN 2 ELSE 0) /\ nc = (IF Exports THEN 1 ELSE 0) /\ nl = (IF Exports THEN 3 ELSE 0)
+        /\ np = (IF Exports THEN 1 ELSE 0) /\ blocks = (IF Exports THEN 4 ELSE 0)
+        /\ dels = {<<"v1", 0>>, <<"v2", 1>>, <<"v3", 2>>} \cup (IF Exports THEN {<<"a6", 0>>} ELSE {})  \* (delegator, validator index) pairs believed to exist
+        /\ vfund = (IF Exports THEN {<<"vx1", "a1">>, <<"vx2", "a2">>} ELSE {})     \* (vesting account, funder) pairs
+        /\ daoh = (IF Exports THEN {"a5"} ELSE {})                                  \* accounts believed to hold DAO shares
+        /\ liq = (IF Exports THEN {<<0, "a1">>, <<2, "a3">>} ELSE {})                                            \* (liquid denom id, holder) pairs believed to exist
 
 \* an existing delegation most of the time, an arbitrary pair otherwise
 Del(h) == IF Pick(1..5, h) # 1 THEN Pick(dels, h) ELSE <<Pick(Accts, h), Pick(0..2, h)>>
@@ -73,10 +98,12 @@ TxOfKind(h, k, f, d, q, vf) ==
       [] k = 24 -> [k |-> "pc_undelegate", from |-> d[1], val |-> d[2], amt |-> Pick(Amts, h)]
       [] k = 25 -> [k |-> "pc_withdraw", from |-> d[1], val |-> d[2]]
       [] k = 26 -> [k |-> "pc_setwd", from |-> f, to |-> Pick(Accts, h)]
+      [] k = 28 -> [k |-> "deploy_empty", from |-> f]
+      [] k = 29 -> [k |-> "gov_toggle", from |-> f, id |-> q[1]]
       [] k = 27 -> [k |-> "convert_coin", from |-> q[2], to |-> Pick(Accts, h), id |-> q[1], amt |-> Pick({"1000", "400000000000000000000"}, h)]
 
-KindOf(k0) == IF k0 <= 27 THEN k0 ELSE IF k0 <= 29 THEN 18 ELSE IF k0 <= 31 THEN 19 ELSE IF k0 = 32 THEN 17 ELSE 15
-RandTx(h, slot) == TxOfKind(h, KindOf(Pick(1..33, h)), Pick(Accts, h), Del(h), Liq(h), Vf(h))
+KindOf(k0) == IF k0 <= 29 THEN k0 ELSE IF k0 <= 31 THEN 18 ELSE IF k0 <= 33 THEN 19 ELSE IF k0 = 34 THEN 17 ELSE 15
+RandTx(h, slot) == TxOfKind(h, KindOf(Pick(1..35, h)), Pick(Accts, h), Del(h), Liq(h), Vf(h))
 
 NewVest(txs)   == Cardinality({j \in DOMAIN txs : txs[j].k = "vest_create" /\ txs[j].merge = FALSE})
 Count(txs, kk) == Cardinality({j \in DOMAIN txs : txs[j].k = kk})
@@ -87,6 +114,9 @@ WithTopUps(txs) ==
           IF j = 0 THEN <<>>
           ELSE IF txs[j].k = "vest_create" /\ txs[j].merge = FALSE
                THEN F[j-1] \o <<txs[j], [k |-> "send", from |-> txs[j].from, to |-> txs[j].to, amt |-> "1000000000000000000"]>>
+               ELSE IF txs[j].k = "gov_toggle"
+               THEN F[j-1] \o <<txs[j]>> \o [v \in 1..3 |-> [k |-> "gov_vote", from |-> "v" \o ToString(v),
+                                                             id |-> np + 1 + Cardinality({y \in 1..(j-1) : txs[y].k \in {"gov_submit", "gov_toggle"}}), opt |-> "yes"]]
                ELSE Append(F[j-1], txs[j])
     IN F[Len(txs)]
 
@@ -105,7 +135,7 @@ Block ==
        /\ nv' = nv + NewVest(one)
        /\ nc' = nc + Count(one, "deploy")
        /\ nl' = nl + Count(one, "liquidate")
-       /\ np' = np + Count(one, "gov_submit")
+       /\ np' = np + Count(one, "gov_submit") + Count(one, "gov_toggle")
        /\ blocks' = blocks + 1
        /\ dels' = dels \cup {<<one[j].from, one[j].val>> : j \in {x \in DOMAIN one : one[x].k \in {"delegate", "pc_delegate"}}}
                         \cup {<<one[j].from, one[j].val2>> : j \in {x \in DOMAIN one : one[x].k = "redelegate"}}
